@@ -37,12 +37,23 @@ Oracle clauses (violation key = C14:<clause>:<site or field>):
                                          every truncation of a valid inner packet, garbage of every length up to 64 - and the bytes
                                          do not survive pack -> parse -> pack (see check_under for when this is judged)
   field:gre.flags                        the C/R/K/S bits of an emitted GRE header do not describe the optional fields that follow
+  trailing-lost:<container>><announced>  the announced header was decoded from the first bytes of the payload and re-encodes to exactly
+                                         those bytes, but the bytes after it - which the container's length field covers - are gone
+                                         from pack(parse(b)) (header kinds that mark their own end, table DELIMITED, excepted)
+  length:eapol.bodylen, length:eap.length, length:igmp3.num_records / .num_sources / .aux_data_len
+                                         emitted length / count field != what an independent walk of the bytes gives (pktwide.py)
+
+Wire-range lattice phase (mc/refs/pktwide.py): besides the table's boundary values (which take part in the pair / triple products),
+every field of every header - and every address / number inside the elements of list valued fields - takes every value of the
+boundary lattice of its WIRE range (0, 1, 2, msb-1, msb, msb+1, max-1, max, every single bit, every single bit cleared; for
+IPv4 / MAC / IPv6 address fields the 32 / 48 / 128 bit lattice) as a single deviation of the base vector; main-phase clauses and keys.
 """
 import os, sys, traceback
 from mc.engine import pmap
 from mc.report import Report, digest
 from mc.refs import rfc1071 as R
 from mc.refs import pktcorpus as K
+from mc.refs import pktwide as W          # extends the table (stacks, mnemonics) on import
 
 PID = "C14"
 MISSING = "<missing>"
@@ -160,7 +171,7 @@ def check_case (P, st, devs, plen):
   kinds = [k for k, _ in st["layers"]]
   try:
     c.calls += 1
-    top, objs, vs, payload = K.build(P, st, devs, plen)
+    top, objs, vs, payload = W.build(P, st, devs, plen)
   except Exception as e:
     _raised(c, e, "assembling the headers"); return c
   try:
@@ -250,6 +261,13 @@ def check_case (P, st, devs, plen):
       c.bad("checksum:%s" % where_key, "%s %s in the frame is %#06x, RFC 1071 over the raw bytes gives %#06x" % (where, field, got, want))
     else:
       c.bad("length:%s.%s" % (where_key, field), "%s %s in the frame is %s, the raw bytes say %s" % (where, field, got, want))
+  # length / count fields of headers rfc1071.verify_frame does not walk (EAPOL body length, EAP length, IGMPv3 record counts)
+  extra = list(W.eapol_issues(b))
+  for i, k in enumerate(kinds):
+    if k == "igmp3" and not ({"gre", "vxlan", "unreach", "time_exceeded"} & set(kinds[:i])):
+      extra.extend(W.igmp3_issues(b, vs[i]["records"]))
+  for where, field, want, got in extra:
+    c.bad("length:%s.%s" % (where, field), "%s %s in the frame is %s, what was assembled has %s" % (where, field, got, want))
   # header-length fields against the options that were asked for
   for i, k in enumerate(kinds):
     if gre_broken: break
@@ -350,10 +368,10 @@ def check_edit (P, st, dev, plen, on="parsed"):
   for d in ((), (dev,)):
     if not sound(P, st, d, plen): return None
   try:
-    top0, objs0, vs0, payload0 = K.build(P, st, (), plen); b0 = top0.pack()
-    objsU = K.build(P, st, (), plen)[1]                  # never packed: attribute defaults before pack()
-    topd, objsd, vsd, payloadd = K.build(P, st, (dev,), plen); bd = topd.pack()
-    objsV = K.build(P, st, (dev,), plen)[1]              # never packed: donor of the new values
+    top0, objs0, vs0, payload0 = W.build(P, st, (), plen); b0 = top0.pack()
+    objsU = W.build(P, st, (), plen)[1]                  # never packed: attribute defaults before pack()
+    topd, objsd, vsd, payloadd = W.build(P, st, (dev,), plen); bd = topd.pack()
+    objsV = W.build(P, st, (dev,), plen)[1]              # never packed: donor of the new values
     p0 = P.pkt.ethernet(raw=b0)
     pd = P.pkt.ethernet(raw=bd)
     c.calls += 8
@@ -504,7 +522,7 @@ def _element (layer, a, k):
 def subedit_points (P, st, devs, plen):
   """Every (layer, attribute, key, element class, element attribute) that can be modified on the parsed packet."""
   if check_case(P, st, devs, plen).viols: return []
-  b0 = K.build(P, st, devs, plen)[0].pack()
+  b0 = W.build(P, st, devs, plen)[0].pack()
   out = []
   cur = P.pkt.ethernet(raw=b0)
   for li, (k, _) in enumerate(st["layers"]):
@@ -531,7 +549,7 @@ def check_subedit (P, st, devs, plen, point):
   label = "%s.%s[%s].%s" % (kind_li, a, cname, sa)
   c = Case()
   try:
-    top0, objs0, _, _ = K.build(P, st, devs, plen); b0 = top0.pack()
+    top0, objs0, _, _ = W.build(P, st, devs, plen); b0 = top0.pack()
     p0, layer0 = _chain_layer(P, st, b0, li)
     c.calls += 3
     if layer0 is None: return None
@@ -540,7 +558,7 @@ def check_subedit (P, st, devs, plen, point):
     newv = mutate(getattr(e0, sa))
     if newv is NOTHING: return None
     # (i) from scratch
-    topf, objsf, _, _ = K.build(P, st, devs, plen)
+    topf, objsf, _, _ = W.build(P, st, devs, plen)
     ef = _element(objsf[li], a, key)
     if ef is None or type(ef).__name__ != cname or not hasattr(ef, sa): return None
     setattr(ef, sa, newv)
@@ -708,7 +726,7 @@ def check_reuse (P, st, i, old, new, source, form, plen, src=None, j=None):
   if not sound(P, st, new, plen) or (source == "parsed" and not sound(P, st_o, old, plen)): return None
   c = Case()
   try:
-    top_o, objs_o, _, _ = K.build(P, st_o, old, plen)
+    top_o, objs_o, _, _ = W.build(P, st_o, old, plen)
     c.calls += 1
     sub = objs_o[j]
     if source != "attached":
@@ -716,7 +734,7 @@ def check_reuse (P, st, i, old, new, source, form, plen, src=None, j=None):
       if source == "parsed":
         sub = walk_to(P, st_o, P.pkt.ethernet(raw=bo), j); c.calls += 1
         if sub is None: return None
-    top_e, objs_e, vs_e, payload = K.build(P, st, new, plen)
+    top_e, objs_e, vs_e, payload = W.build(P, st, new, plen)
     be = top_e.pack()
     nbytes = len(objs_e[i].pack())
     c.calls += 3
@@ -765,20 +783,27 @@ def reuse_cases (st, quick):
 # bytes under a demultiplexing header:  a container whose type / protocol / port field selects a parser, carrying
 # bytes which that parser cannot (completely) decode
 # ---------------------------------------------------------------------------------------------
-UNDER_CONTENTS = ("prefix", "pattern", "zeros", "ones")
+UNDER_CONTENTS = ("prefix", "pattern", "zeros", "ones", "extended")
 UNDER_GARBAGE_MAX = 64
 # Fixed part of every header kind in bytes, from the RFCs / IEEE standards (independent of the library): fewer bytes cannot
 # hold that header, so whatever a parser makes of them must serialise back to exactly those bytes.
 FIXED_LEN = dict(eth=14, vlan=4, llc=3, snap=8, arp=28, mpls=4, eapol=4, eap=4, lldp=2, ipv4=20, udp=8, tcp=20, icmp=4, echo=4,
                  unreach=4, time_exceeded=4, igmp=8, igmp3=8, gre=4, vxlan=8, dhcp=240, dns=12, rip=4, ipv6=40, icmpv6=4, echo6=4,
-                 unreach6=4, toobig6=4, timex6=4, nd_rs=4, nd_ra=12, nd_ns=20, nd_na=20)
+                 unreach6=4, toobig6=4, timex6=4, nd_rs=4, nd_ra=12, nd_ns=20, nd_na=20, ipv6nn=40)
 # Headers whose payload is DEFINED as a possibly truncated datagram (RFC 792: "Internet Header + 64 bits of Original Data
 # Datagram"; RFC 4443: "as much of invoking packet as possible"): a truncated inner packet is valid content there.
 QUOTERS = frozenset(["unreach", "time_exceeded", "unreach6", "toobig6", "timex6"])
 
 
+# Header kinds that say themselves where they end (total / body length field, End TLV, end option): bytes after that point are
+# padding outside the header, which a parser may drop.  Every other kind extends to the end of what its container announces.
+DELIMITED = frozenset(["ipv4", "ipv6", "ipv6nn", "udp", "eapol", "eap", "lldp", "dhcp"])
+UNDER_EXTRA = (1, 2, 17)
+
+
 def under_data (inner, content, t):
   if content == "prefix": return inner[:t]
+  if content == "extended": return inner + K.pattern(t, 3)
   if content == "pattern": return K.pattern(t)
   return (b"\x00" if content == "zeros" else b"\xff") * t
 
@@ -801,14 +826,15 @@ def check_under (P, st, i, devs, content, t, plen):
   the place of the payload.  Returns (Case, judged)."""
   kinds = [k for k, _ in st["layers"]]
   c = Case()
-  top_e, objs_e, vs_e, _ = K.build(P, st, devs, plen)
+  top_e, objs_e, vs_e, _ = W.build(P, st, devs, plen)
   be = top_e.pack()
   inner = be[len(be) - len(objs_e[i].pack()):]
   data = under_data(inner, content, t)
   c.calls += 3
   ck, ik = kinds[i - 1], kinds[i]
   label = "%s carrying %d bytes (%s) where a %s header is announced" % (ck, len(data), "the beginning of a valid %s packet of %d bytes"
-                                                                       % (ik, len(inner)) if content == "prefix" else content, ik)
+                                                                       % (ik, len(inner)) if content == "prefix" else
+                                                                       "a valid %s packet of %d bytes and %d more bytes" % (ik, len(inner), t) if content == "extended" else content, ik)
   try:
     c.calls += 2
     top, objs = wrap(P, st, vs_e, i, data, "attr", len(data))
@@ -848,7 +874,19 @@ def check_under (P, st, i, devs, content, t, plen):
   decoded = isinstance(cur, K.KINDS[ik]["cls"](P)) and getattr(cur, "parsed", False)
   frame_issues(c, b, "", label, below=len(b) - len(data))
   judged = len(data) < FIXED_LEN[ik] or not decoded or (content == "prefix" and ck in QUOTERS)
-  if c.viols or not judged: return c, judged
+  if c.viols: return c, judged
+  if not judged:
+    # (iv) the parser decoded the announced header: its re-encoding may be normalised, but if it re-encodes to a PROPER PREFIX
+    # of the bytes handed in, bytes that the container's length field covers were dropped (unless the header kind marks its own end)
+    if ik in DELIMITED: return c, False
+    try: rest = _flatten(cur, c)
+    except Exception: return c, False
+    if len(rest) < len(data) and data.startswith(rest):
+      # (the four ND messages share one option parser: one key)
+      c.bad("trailing-lost:%s>%s" % (ck, "nd" if ik.startswith("nd_") else ik), "%s: the parser decoded the first %d bytes as %s and dropped the %d bytes that follow "
+            "(the %s length field covers them): pack(parse(b)) is shorter than b" % (label, len(rest), describe(cur, P), len(data) - len(rest), ck))
+      return c, True
+    return c, False
   try:
     rest = _flatten(cur, c)
     c.calls += 1
@@ -882,11 +920,12 @@ def under_cases (P, st, quick, plen):
   for i in range(1, len(st["layers"])):
     for devs in under_sources(st, i):
       if not sound(P, st, devs, plen): continue
-      top, objs, _, _ = K.build(P, st, devs, plen)
+      top, objs, _, _ = W.build(P, st, devs, plen)
       top.pack()
       T = len(objs[i].pack())
       for content in UNDER_CONTENTS:
         if content == "prefix": ts = range(0, T)
+        elif content == "extended": ts = UNDER_EXTRA if i == len(st["layers"]) - 1 else ()
         else: ts = range(0, min(T, UNDER_GARBAGE_MAX if quick else 4 * UNDER_GARBAGE_MAX) + 1)
         out.extend((i, devs, content, t) for t in ts)
   return out
@@ -917,14 +956,14 @@ def check_swap (P, st, devs, plen, variant, on):
   kinds = [k for k, _ in st["layers"]]
   data = swap_data(variant, plen)
   if len(data) != plen and (COMPUTED_LEN_KINDS & set(kinds) or
-                            any(v.get("type") == "len" or v.get("eth_type") == "len" for v in K.values(st, devs))):
+                            any(v.get("type") == "len" or v.get("eth_type") == "len" for v in W.values(st, devs))):
     return None        # a length field that the USER supplies would have to be edited as well
   if not sound(P, st, devs, plen): return None
   c = Case()
   pre = "encoded-" if on == "built" else ""
   try:
-    top0, objs0, _, _ = K.build(P, st, devs, plen); b0 = top0.pack()
-    topd, objsd, _, _ = K.build(P, st, devs, plen)
+    top0, objs0, _, _ = W.build(P, st, devs, plen); b0 = top0.pack()
+    topd, objsd, _, _ = W.build(P, st, devs, plen)
     objsd[-1].payload = data                       # never packed before: this is the from-scratch packet
     if on == "parsed":
       top = P.pkt.ethernet(raw=b0); c.calls += 1
@@ -1320,6 +1359,40 @@ def _run_swap (rep, name):
         _tally(rep, name, "swap", c, dict(kind="swap", devs=[list(d) for d in devs], variant=variant, on=on, plen=plen), (variant, on))
 
 
+def wide_layers (st, quick):
+  """Layers whose fields get the wide lattice: thorough - all; quick - the two innermost headers of the stacks without an
+  802.1Q tag (every header kind is innermost or next to innermost in some stack; the outer ones repeat)."""
+  n = len(st["layers"])
+  if not quick: return set(range(n))
+  if st["name"].startswith("vlan:"): return set()
+  return set(range(max(0, n - 2), n))
+
+
+def _run_wide (rep, name):
+  """Wire-range lattice phase: every field of every header x the whole boundary lattice of its wire range (pktwide.py), every
+  address / number inside list elements likewise, as single deviations of the base vector; main-phase oracle.  Thorough: also
+  assigned to the parsed packet (edit phase oracle)."""
+  P = K.pox_namespace()
+  st = K.STACKS[name]
+  quick = _worker.quick
+  devs = W.wide_deviations(st, wide_layers(st, quick))
+  for plen in edit_plens(st, quick):
+    for dev in devs:
+      try:
+        c = check_case(P, st, (dev,), plen)
+      except Exception:
+        rep.error("wide case %s %r plen=%d: %s" % (name, dev, plen, traceback.format_exc(limit=4))); continue
+      _tally(rep, name, "wide", c, dict(kind="packet", devs=[list(dev)], plen=plen))
+      if quick or c.viols or dev[1] in LABELLED or dev[1] in ("records",): continue
+      if plen != edit_plens(st, True)[0] or name.startswith("vlan:"): continue
+      try:
+        c = check_edit(P, st, dev, plen, "parsed")
+      except Exception:
+        rep.error("wide edit case %s %r plen=%d: %s" % (name, dev, plen, traceback.format_exc(limit=4))); continue
+      if c is None: _na(rep, "wide_edit"); continue
+      _tally(rep, name, "wide_edit", c, dict(kind="edit", dev=list(dev), plen=plen, on="parsed"))
+
+
 def _run_subedits (rep, name):
   P = K.pox_namespace()
   st = K.STACKS[name]
@@ -1357,6 +1430,8 @@ def _run_part (rep, name, part):
     return _run_under(rep, name)
   if part == "swap":
     return _run_swap(rep, name)
+  if part == "wide":
+    return _run_wide(rep, name)
   P = K.pox_namespace()
   st = K.STACKS[name]
   cases = cases_for(st, _worker.quick, part)
@@ -1474,6 +1549,8 @@ def run (cfg):
     parts.append(((name, "reuse"), 5 * npl * len(reuse_cases(K.STACKS[name], quick))))
     parts.append(((name, "under"), 1500 * npl * nl))
     if K.STACKS[name]["payload"]: parts.append(((name, "swap"), 30 * npl * (nd1 + 1)))
+    nw = len(W.wide_deviations(K.STACKS[name], wide_layers(K.STACKS[name], quick)))
+    if nw: parts.append(((name, "wide"), (1 if quick or name.startswith("vlan:") else 4) * npl * nw))
   total = sum(n for _, n in parts)
   target = max(1500, total // (max(1, cfg.workers) * 12))
   cur, size = [], 0
@@ -1521,6 +1598,15 @@ def run (cfg):
               "lengths and checksums as in the main phase; the bytes must come back and re-encode identically whenever they are shorter than "
               "the fixed part of the announced header (table FIXED_LEN from the RFCs), or the parser did not decode them, or the container "
               "is an ICMP/ICMPv6 error header quoting a truncated valid datagram (RFC 792 'header + 64 bits' is t = 28 here).  "
+              "A complete packet of the innermost header followed by {1,2,17} more bytes is handed in the same way, and whenever the "
+              "announced header is decoded from a proper prefix of the bytes handed in and re-encodes to exactly that prefix, the rest "
+              "must not be dropped (header kinds with their own end marker / length field excepted).  "
+              "Wire-range lattice phase (refs/pktwide.py): per stack%s, every unpinned non-selector field of %s x every value of the boundary "
+              "lattice of its wire range {0,1,2,msb-1,msb,msb+1,max-1,max, each single bit, each single bit cleared} (IPv4 / MAC / IPv6 "
+              "address fields: the 32/48/128 bit lattice; ports minus the application ports), and for list valued fields (RIP entries, "
+              "IGMPv3 records, DHCP options - every option class alone -, LLDP TLVs, ND options, TCP options) one attribute of one element "
+              "over its lattice plus list lengths at the count-field boundaries: single deviation of the base vector x payload %s, main-phase "
+              "oracle%s; emitted EAPOL / EAP lengths and IGMPv3 record / source / aux counts are verified by an independent walk of the bytes.  "
               "Corpus phase: pack(parse(f)) == f for every corpus frame f (families in pktcorpus.CORPUS_NOT_CANONICAL: the "
               "re-encoding is a fixpoint).  History phase: for every ordered pair (A, B) of the %d corpus frames (A == B included), "
               "in a fresh process per A: parse A, parse B; every attribute of B's parsed chain and its re-encoding must equal B parsed "
@@ -1531,12 +1617,17 @@ def run (cfg):
                  "" if quick else ", every triple of deviations in different fields x payload {0,1} on stacks with <= 100 deviations",
                  129 if quick else 1501, "{18}" if quick else "{0,1,18}", "{18}" if quick else "{0,1,18}",
                  "its direct container" if quick else "any header above it", UNDER_GARBAGE_MAX if quick else 4 * UNDER_GARBAGE_MAX,
+                 " without 802.1Q tag" if quick else "", "its two innermost headers" if quick else "every header",
+                 "{18}" if quick else "{0,1,18}", "" if quick else "; on the untagged stacks (payload 18) scalar values are also assigned to the PARSED packet (edit-phase oracle)",
                  len(K.corpus())))
   rep.bound = dict(stacks=len(names), deviations=2 if quick else 3, payload_max=1500, work_items=len(items),
                    reuse=dict(sources=list(REUSE_SOURCES), forms=list(ATTACH_FORMS), old_new_difference="1 deviation of %s, or another stack "
                               "with the same tail" % ("the direct container" if quick else "any outer header")),
                    undecodable_payload=dict(prefix_lengths="0..T-1", garbage_lengths="0..min(T,%d)" % (UNDER_GARBAGE_MAX if quick else 4 * UNDER_GARBAGE_MAX),
                                             contents=list(UNDER_CONTENTS)),
+                   wire_lattice=dict(values_per_field="8 boundaries + 2 per bit of the field width", layers="two innermost, untagged stacks" if quick else "all",
+                                     wide_deviations=sum(len(W.wide_deviations(K.STACKS[n], wide_layers(K.STACKS[n], quick))) for n in names)),
+                   trailing_bytes=list(UNDER_EXTRA),
                    payload_replacement=list(SWAP_VARIANTS), history_payload_lengths=[18] if quick else [0, 1, 18])
   rep.assumptions = ["frames carry no trailer padding (a total-length field accounts for every remaining byte)",
                      "field values are taken from the boundary sets in pktcorpus.KINDS, not from the whole wire range",
@@ -1548,7 +1639,11 @@ def run (cfg):
                      "bytes that a parser accepts as the announced header although their own length / checksum fields do not fit the "
                      "truncation (e.g. 30 bytes of a 38 byte TCP segment under IPv4) are recomputed by the library by design: counted, "
                      "not judged - except under ICMP/ICMPv6 error headers, whose payload is by definition a truncated datagram",
-                     "gre.csum: True = compute, number = emit as given (class docstring); a parsed header holds a number"]
+                     "gre.csum: True = compute, number = emit as given (class docstring); a parsed header holds a number",
+                     "selector fields (ethertype, IP protocol / next header, ICMP / IGMP / EAPOL type, EAP code, application ports) keep the "
+                     "table's values in the wire-range lattice phase: their value decides which header follows",
+                     "bytes after a header that marks its own end (IPv4 / IPv6 / UDP / EAPOL / EAP length field, LLDP End TLV, DHCP end "
+                     "option) are padding and may be dropped; after every other decoded header they belong to the container's payload"]
   return rep
 
 
@@ -1617,7 +1712,7 @@ def replay (cfg, data):
   if data.get("kind") == "edit":
     dev = tuple(data["dev"])
     c = check_edit(P, st, dev, data["plen"], data.get("on", "parsed"))
-    val = K.values(st, (dev,))[dev[0]][dev[1]]
+    val = W.values(st, (dev,))[dev[0]][dev[1]]
     lines = ["stack %s, payload %d bytes: base vector packed%s; then on the %s layer %d (%s) %s := %s; "
              "packed and parsed again" % (st["name"], data["plen"], " and parsed" if data.get("on", "parsed") == "parsed" else "",
                                           "parsed chain" if data.get("on", "parsed") == "parsed" else "assembled objects",
@@ -1632,7 +1727,7 @@ def replay (cfg, data):
   c = check_case(P, st, devs, data["plen"])
   lines = ["stack %s, payload %s, deviations from the base vector:"
            % (st["name"], "%d bytes" % data["plen"] if data["plen"] >= 0 else "2 bytes making the UDP checksum compute to 0")]
-  vs = K.values(st, devs)
+  vs = W.values(st, devs)
   for li, f, ai in devs:
     lines.append("  layer %d (%s) %s = %s" % (li, st["layers"][li][0], f, short(vs[li][f], 80)))
   if not devs: lines.append("  (none)")
